@@ -1456,6 +1456,7 @@ func cfgValidScalars(cfg *ResponseConfig) bool {
 //@ func cfgFromRequest
 //@   wiring
 //@   returns  (nowMS, cfg, errHT)
+//@   store offsetMS := requires offsetTruncatedInMs: offsetMS == int(*cfg.TimeOffsetS * 1000.0)
 //@   callsite Sprintf requires remainingInMs: arg0 == "%dms too early" ==> nvarargs == 1 && vararg0.(int) == cfg.StartTimeS*1000 - nowMS
 //@   exit 7 requires handedOnOnlyFromStart: errHT == nil && cfg != nil && nowMS >= cfg.StartTimeS*1000 && cfgValidScalars(cfg)
 
@@ -1463,7 +1464,8 @@ func cfgValidScalars(cfg *ResponseConfig) bool {
 // C07: responses are a function of (URL, time): shared state is read-only while serving,
 // and the CMAF-ingester manager tables are (not) synchronised.
 
-//@ shared_types asset, RepData, repEncData, initEncData, assetMgr, Server, ServerConfig, Segment
+//@ shared_types asset, RepData, repEncData, initEncData, assetMgr, Server, ServerConfig, Segment, DrmConfig, DrmData, CPIXData
+//@ mutable_types cmafIngesterMgr, cmafIngester
 //@ startup_funcs SetupServer, newAssetMgr, discoverAssets, loadAsset, loadRep, loadFromJSON, writeToJSON, addRegExpAndInit, consolidateAsset, setReferenceRep, addEncryption, readMP4Segment, readInit, addAsset, compileTemplates, addMPDData, NewCmafIngesterMgr, Start, createLimiter, NewIPRequestLimiter, Run, main
 
 //@ guarded_by cmafIngesterMgr.mu: ingesters, cancels, state
@@ -1768,10 +1770,24 @@ func encWanted(codec string) bool { return strHasPrefix(codec, "avc") || strHasP
 //@   ensures cbcsInit: ret1 == nil && ret0.isInit && cfg.DRM == "eccp-cbcs" && ret0.rep.encData != nil ==> ret0.init == ret0.rep.encData.initEnc["cbcs"].initRaw
 //@   ensures clearInit: ret1 == nil && ret0.isInit && (cfg.DRM == "" || ret0.rep.encData == nil) ==> ret0.init == ret0.rep.initBytes
 
-// laURLHandlerFunc: only key ids issued by this server are turned into keys.
+// urlSafeBase64: padding removed, '+' -> '-', '/' -> '_' (RFC 4648 section 5), in that order of calls.
+// urlSafeSpec: the URL-safe spelling of a base64 text (uninterpreted in proofs).
+func urlSafeSpec(b64 string) string { return urlSafeBase64(b64) }
+
+//@ uninterpreted urlSafeSpec
+
+//@ func urlSafeBase64
+//@   wiring
+//@   defines urlSafeSpec(b64)
+//@   callsite ReplaceAll requires urlSafeAlphabet: (arg1 == "=" ==> arg2 == "") && (arg1 == "+" ==> arg2 == "-") && (arg1 == "/" ==> arg2 == "_") && (arg1 == "=" || arg1 == "+" || arg1 == "/")
+
+// laURLHandlerFunc: only key ids issued by this server are turned into keys, and each answer entry
+// pairs the key derived from the requested key id with that same key id.
 //@ func (*Server).laURLHandlerFunc
 //@   wiring
 //@   callsite kidToKey requires issuedKid: kidPrefixed(arg_kid)
+//@   store kidStr := requires echoedKidIsTheRequestedOne: kidStr == urlSafeSpec(kid)
+//@   callsite append:respData.Keys requires entryPairsKeyWithItsKid: vararg0.K == keyStr && vararg0.Kid == kidStr && vararg0.Kty == "oct"
 
 // ---------------------------------------------------------------------------
 // C06: period splitting
@@ -1963,6 +1979,11 @@ func lemmaNumberTemplateAgrees(a *asset, rep *RepData, n, D int) {
 
 // ---------------------------------------------------------------------------
 // C15: representation-metadata cache and asset admission
+// loadRep: cached metadata is consulted only when this server does not (re)write the cache.
+//@ func (*assetMgr).loadRep
+//@   wiring
+//@   callsite (*RepData).loadFromJSON requires cacheOnlyWhenNotWriting: !am.writeRepData
+
 
 // writeToJSON: the cache file of a representation is (re)created from scratch (os.Create
 // truncates), named after the representation, and receives exactly the JSON of this RepData.
@@ -2028,6 +2049,17 @@ func contiguousUpTo(r *RepData, n int) bool {
 
 // ---------------------------------------------------------------------------
 // C16 (sequential part only): numbering of the segments a CMAF-ingest session sends
+
+// REST handlers of the ingest sessions (closures): deleting cancels the session whatever its
+// state (the unconditional call; the guarded one is for a running session), and a step for a
+// session that has stopped is refused instead of waiting for a receiver that no longer exists.
+//@ func createDeleteCmafIngesterHdlr$1
+//@   wiring
+//@   callsite cancel requires cancelsThisSession: arg_nr == uint64(id)
+//@ func createStepCmafIngesterHdlr$1
+//@   wiring
+//@   callsite Error410Gone requires stoppedSessionRefused: ci.state == ingesterStateStopped
+//@   exit 5 requires steppedOnlyLiveSession: ci.state != ingesterStateStopped && ret1 == nil
 
 // start: the session begins right after the newest ended segment (findLastSegNr at the session's
 // "now"), every upload round is made for the current number, which then advances by one, a
